@@ -771,6 +771,13 @@ class DestHandler:
             self._handle_fd_without_previous_metadata(True, packet_holder.to_file_data_pdu())
         elif packet_holder.pdu_directive_type == DirectiveType.METADATA_PDU:
             self._handle_metadata_packet(packet_holder.to_metadata_pdu())
+            if (
+                self._params.fp.file_size_eof is not None
+                and self.states.step == TransactionStep.RECEIVING_FILE_DATA
+            ):
+                # The EOF PDU was already received, continue with the deferred lost segment
+                # procedure instead of waiting for another EOF PDU.
+                self.states.step = TransactionStep.WAITING_FOR_MISSING_DATA
             if self._params.acked_params.deferred_lost_segment_detection_active:
                 self._reset_nak_activity_parameters()
         elif packet_holder.pdu_directive_type == DirectiveType.EOF_PDU:  # type: ignore
